@@ -129,6 +129,94 @@ theorem readBitsVal_bitsOf (buf : Bytes) (pos n v acc : Nat)
       simp only [bitsOf, List.getD_cons_succ] at this
       rw [← this]; congr 1; omega
 
+/-! ### the byte-wise `ReadBitsUnsafe` computes the bit-serial value -/
+
+theorem getBit_eq (buf : Bytes) (i : Nat) : getBit buf i = byteAt buf i / 2 ^ (7 - i % 8) % 2 := rfl
+
+theorem byteAt_lt (buf : Bytes) (pos : Nat) : byteAt buf pos < 256 := by
+  unfold byteAt; exact UInt8.toNat_lt _
+
+/-- `k` bits that lie inside the byte of `pos` -/
+theorem readBitsVal_in_byte (buf : Bytes) (pos k acc : Nat) (h : pos % 8 + k ≤ 8) :
+    readBitsVal buf pos k acc = acc * 2 ^ k + byteAt buf pos / 2 ^ (8 - pos % 8 - k) % 2 ^ k := by
+  induction k generalizing pos acc with
+  | zero => simp [readBitsVal, Nat.mod_one]
+  | succ k ih =>
+    rw [readBitsVal]
+    by_cases hk : k = 0
+    · subst hk
+      simp only [readBitsVal, getBit_eq, Nat.pow_one]
+      rw [show 8 - pos % 8 - (0 + 1) = 7 - pos % 8 by omega]
+      omega
+    · have hr : pos % 8 ≤ 6 := by omega
+      have h1 : (pos + 1) % 8 = pos % 8 + 1 := by omega
+      have h2 : byteAt buf (pos + 1) = byteAt buf pos := by
+        unfold byteAt; rw [show (pos + 1) / 8 = pos / 8 by omega]
+      rw [ih (pos + 1) _ (by omega), h1, h2, getBit_eq]
+      generalize hm : 8 - (pos % 8 + 1) - k = m
+      rw [show 8 - pos % 8 - (k + 1) = m by omega, show 7 - pos % 8 = m + k by omega]
+      rw [Nat.mod_pow_succ (x := byteAt buf pos / 2 ^ m), Nat.div_div_eq_div_mul, ← Nat.pow_add, Nat.pow_succ]
+      have : (2 * acc + byteAt buf pos / 2 ^ (m + k) % 2) * 2 ^ k
+          = acc * (2 ^ k * 2) + 2 ^ k * (byteAt buf pos / 2 ^ (m + k) % 2) := by
+        rw [Nat.add_mul, Nat.mul_comm (byteAt buf pos / 2 ^ (m + k) % 2)]
+        congr 1
+        rw [Nat.mul_comm 2 acc, Nat.mul_assoc, Nat.mul_comm 2]
+      omega
+
+theorem readBitsVal_add (buf : Bytes) (pos a b acc : Nat) :
+    readBitsVal buf pos (a + b) acc = readBitsVal buf (pos + a) b (readBitsVal buf pos a acc) := by
+  induction a generalizing pos acc with
+  | zero => simp [readBitsVal]
+  | succ a ih =>
+    rw [show a + 1 + b = (a + b) + 1 by omega, readBitsVal, ih, readBitsVal]
+    rw [show pos + 1 + a = pos + (a + 1) by omega]
+
+/-- the whole-byte loop, from a byte boundary -/
+theorem readWhole_eq (buf : Bytes) (fuel pos n v : Nat) (hp : pos % 8 = 0) (hf : n / 8 < fuel) :
+    readWhole buf fuel pos n v = readBitsVal buf pos n v := by
+  induction fuel generalizing pos n v with
+  | zero => omega
+  | succ f ih =>
+    rw [readWhole]
+    have hb := byteAt_lt buf pos
+    split
+    · rename_i h8
+      rw [ih (pos + 8) (n - 8) _ (by omega) (by omega)]
+      have := readBitsVal_add buf pos 8 (n - 8) v
+      rw [show 8 + (n - 8) = n by omega] at this
+      rw [this, readBitsVal_in_byte buf pos 8 v (by omega)]
+      congr 1
+      rw [hp, show 8 - 0 - 8 = 0 by rfl, Nat.pow_zero, Nat.div_one, Nat.mod_eq_of_lt (by omega)]
+    · split
+      · rename_i h8 h0
+        rw [readBitsVal_in_byte buf pos n v (by omega), hp, show 8 - 0 - n = 8 - n by omega]
+        congr 1
+        apply (Nat.mod_eq_of_lt _).symm
+        apply Nat.div_lt_of_lt_mul
+        rw [← Nat.pow_add, show 8 - n + n = 8 by omega]
+        omega
+      · have : n = 0 := by omega
+        subst this; rfl
+
+/-- **`ReadBitsUnsafe` computes the bit-serial value**: the byte-wise algorithm of mediacommon
+(bits left in the current byte, whole bytes, leading bits of the last byte) reads exactly the `n`
+bits starting at `pos`, most significant first. -/
+theorem readBitsGo_eq (buf : Bytes) (pos n : Nat) : readBitsGo buf pos n = readBitsVal buf pos n 0 := by
+  unfold readBitsGo
+  simp only []
+  split
+  · rename_i hlt
+    rw [readBitsVal_in_byte buf pos n 0 (by omega), show 8 - pos % 8 - n = 8 - pos % 8 - n from rfl]
+    simp
+  · rename_i hge
+    have hsplit := readBitsVal_add buf pos (8 - pos % 8) (n - (8 - pos % 8)) 0
+    rw [show 8 - pos % 8 + (n - (8 - pos % 8)) = n by omega] at hsplit
+    rw [hsplit, readBitsVal_in_byte buf pos (8 - pos % 8) 0 (by omega),
+      readWhole_eq buf _ _ _ _ (by omega) (by omega)]
+    congr 1
+    rw [show 8 - pos % 8 - (8 - pos % 8) = 0 by omega]
+    simp
+
 /-- the buffer starts with the bit string `bits` (byte-padded), whatever follows -/
 def HoldsBits (buf : Bytes) (bits : List Bool) : Prop :=
   bits.length ≤ buf.length * 8 ∧ ∀ i, i < bits.length → getBit buf i = (bits.getD i false).toNat
@@ -145,7 +233,7 @@ theorem readBits_field (buf : Bytes) (pre post : List Bool) (v n : Nat)
   obtain ⟨hlen, hbits⟩ := h
   simp only [List.length_append, bitsOf_length] at hlen
   have hsp : ¬ n > buf.length * 8 - pre.length := by omega
-  simp only [readBits, hsp, ↓reduceIte]
+  simp only [readBits, hsp, ↓reduceIte, readBitsGo_eq]
   rw [readBitsVal_bitsOf buf pre.length n v 0]
   · simp [Nat.mod_eq_of_lt hv, Nat.mod_eq_of_lt hv64]
   · intro k hk
